@@ -13,9 +13,10 @@ import sympy as sp
 from ..loader import U, AnalysisError
 from .. import spec as SP
 from ..term import (Lifter, Slots, Tup, Opaque, Unsupported, summand, is_zero,
-                    gaussian_family, S)
+                    gaussian_family, S, NotASum)
 
 ENG = 'term-algebra'
+ELEM = (SP.psi, SP.eta, SP.mu, SP.sigma, SP.up)
 STDNORMAL = -sp.log(2 * sp.pi) / 2 - SP.eta**2 / 2
 
 
@@ -117,10 +118,15 @@ def r05_2(ctx, repo):
                 lf = Lifter(repo, cls, flags=flags)
                 val = lf.run(fn, env)
                 _check(ctx, rule, where, construct, 'density',
-                       summand(val), want,
+                       summand(val, ELEM), want,
                        'log-likelihood = sum over individuals and dimensions '
                        'of the %s log-density' % (
                            'documented' if centered else 'standard-normal'))
+            except NotASum as e:
+                ctx.violation(rule, where, construct, 'not a sum',
+                              'the log-likelihood is not a sum over '
+                              'individuals and dimensions of a per-element '
+                              'log-density: %s' % e, engine=ENG)
             except Unsupported as e:
                 ctx.error(rule, 'cannot lift %s: %s' % (construct, e))
             # -- sensitivities -------------------------------------------------
@@ -149,9 +155,14 @@ def r05_2(ctx, repo):
                 score, dpsi, dtheta = val[1], val[2], val[3]
                 try:
                     _check(ctx, rule, where, construct, 'score',
-                           summand(score), want,
+                           summand(score, ELEM), want,
                            'score returned with the sensitivities = '
                            'log-likelihood')
+                except NotASum as e:
+                    ctx.violation(rule, where, construct, 'score not a sum',
+                                  'the score returned with the '
+                                  'sensitivities is not a sum of per-element '
+                                  'log-densities: %s' % e, engine=ENG)
                 except Unsupported as e:
                     ctx.error(rule, '%s score: %s' % (construct, e))
                 u = SP.up if upstream else 0
